@@ -417,7 +417,9 @@ func (g *g) forClause() string {
 	case 0: // for x do
 	case 1: // for x; do
 		semi = true
-		g.op(";").LinebreakAfter = true
+		t := g.op(";")
+		t.LinebreakAfter = true
+		t.SemiNL = true // sequential_sep: a newline does as well
 		g.maybeNL("for_nl")
 	case 2: // for x <newline> do
 		g.nl()
@@ -435,7 +437,9 @@ func (g *g) forClause() string {
 			g.nl()
 		} else {
 			semi = true
-			g.op(";").LinebreakAfter = true
+			t := g.op(";")
+			t.LinebreakAfter = true
+			t.SemiNL = true
 			g.maybeNL("for_nl")
 		}
 	}
